@@ -9,13 +9,92 @@ from collections import defaultdict, deque
 _GEN = re.compile(r'::<[^<>]*(?:<[^<>]*(?:<[^<>]*>[^<>]*)*>[^<>]*)*>')
 
 
-def strip_generics(p):
-    """hickory_proto::rr::RecordRef::<'_, R>::data -> hickory_proto::rr::RecordRef::data"""
+# closures are named by role, not by rustc's per-function ordinal: `f::{closure#7}` becomes
+# `f::{closure@any#0}` (first closure of f passed to a call of `..::any`).  An unrelated closure added to f
+# (a new tracing macro, a new `.map(|x| ..)`) then does not shift the names the rules anchor on.
+# Async-fn bodies (`f::{closure#0}` assigned to the return place) keep their name.
+CLOSURE_RENAME = {}
+_CLSEG = re.compile(r'::\{closure#\d+\}')
+
+
+def _strip(p):
     prev = None
     while prev != p:
         prev = p
         p = _GEN.sub('', p)
     return p
+
+
+def strip_generics(p):
+    """hickory_proto::rr::RecordRef::<'_, R>::data -> hickory_proto::rr::RecordRef::data (+ role names for closures)"""
+    p = _strip(p)
+    if CLOSURE_RENAME and '{closure#' in p:
+        ends = [m.end() for m in _CLSEG.finditer(p)]
+        for e in reversed(ends):
+            r = CLOSURE_RENAME.get(p[:e])
+            if r is not None:
+                return r + p[e:]
+    return p
+
+
+def closure_roles(crates):
+    """old stripped closure path -> role-based path, from the construction site of each closure"""
+    info = {}     # old path -> (parent old path, N, role or None)
+    for doc in crates.values():
+        for rawp, meta in doc['fns'].items():
+            body = meta.get('body')
+            if not body:
+                continue
+            parent = _strip(rawp)
+            blocks = body['blocks']
+            for b in blocks:
+                for st in b['s']:
+                    if st[0] != '=' or st[2][0] not in ('closure', 'coroutine'):
+                        continue
+                    cp = _strip(st[2][1])
+                    m = re.search(r'\{closure#(\d+)\}$', cp)
+                    if not m or cp in info:
+                        continue
+                    n = int(m.group(1))
+                    L = st[1]
+                    if st[2][0] == 'coroutine' and L == 0:
+                        info[cp] = (parent, n, None)          # async fn body: keep
+                        continue
+                    holders = {L} if isinstance(L, int) else set()
+                    for b2 in blocks:                          # one level of plain moves
+                        for s2 in b2['s']:
+                            if s2[0] == '=' and isinstance(s2[1], int) and s2[2][0] == 'use' and s2[2][1][0] in ('m', 'c') and isinstance(s2[2][1][1], int) and s2[2][1][1] in holders:
+                                holders.add(s2[1])
+                    role = None
+                    for b2 in blocks:
+                        t = b2['t']
+                        if t[0] != 'call' or 'op' in t[1]:
+                            continue
+                        if any(a[0] in ('m', 'c') and isinstance(a[1], int) and a[1] in holders for a in t[2]):
+                            d = _strip(t[1].get('def', ''))
+                            role = 'call' if d == cp else re.sub(r'[^A-Za-z0-9_]', '', d.split('::')[-1]) or 'fn'
+                            break
+                    info[cp] = (parent, n, role or 'val')
+    # ordinals per (parent, role), parents renamed first (shorter paths first)
+    groups = defaultdict(list)
+    for cp, (parent, n, role) in info.items():
+        if role is not None:
+            groups[(parent, role)].append((n, cp))
+    local = {}
+    for (parent, role), lst in groups.items():
+        for k, (n, cp) in enumerate(sorted(lst)):
+            local[cp] = f'{{closure@{role}#{k}}}'
+    out = {}
+    for cp in sorted(info, key=lambda x: x.count('::{closure#')):
+        parent = info[cp][0]
+        seg = local.get(cp)
+        np_ = out.get(parent, parent)
+        if seg is None:
+            if np_ != parent:
+                out[cp] = np_ + cp[len(parent):]
+            continue
+        out[cp] = np_ + '::' + seg
+    return out
 
 
 def last2(p):
@@ -364,7 +443,7 @@ class Fn:
             return f'into<{short_ty(self.locals[t[3]] if isinstance(t[3], int) else "")}>({args[0]})'
         name = strip_generics(c.get('res') or c['def']).replace(', ', ';').replace(',', ';')
         # awaiting an async fn / async block: poll of the coroutine body built by the call
-        if len(args) == 2 and 'get_context(' in args[1] and (name.endswith('::{closure#0}') or name.endswith('::poll')):
+        if len(args) == 2 and 'get_context(' in args[1] and (re.search(r'::\{closure[^}]*\}$', name) or name.endswith('::poll')):
             return f'await({args[0]})'
         return f'{name}(' + ','.join(args) + ')'
 
@@ -510,6 +589,9 @@ class Program:
         self.impls = []
         self.raw2norm = {}
         self.stats = {'bodies': 0, 'calls': 0, 'resolved': 0, 'asserts': 0}
+        CLOSURE_RENAME.clear()
+        self.closure_rename = closure_roles(crates)
+        self.activate()
         for cname, doc in crates.items():
             for p, a in doc['adts'].items():
                 if p not in self.adts or a.get('local'):
@@ -534,6 +616,11 @@ class Program:
             self.stats['asserts'] += doc['n_asserts']
         self._closure_sites = None
         self._callers = None
+
+    def activate(self):
+        """make this program's closure role names the ones strip_generics applies"""
+        CLOSURE_RENAME.clear()
+        CLOSURE_RENAME.update(self.closure_rename)
 
     def fn(self, path):
         return self.fns.get(path)
